@@ -21,9 +21,15 @@ impl Prop for C01 {
             Tier::Thorough => 60000,
         }
     }
-    fn run_case(&self, _cfg: &RunCfg, _idx: usize, rng: &mut Rng, out: &mut Out) {
-        let gcfg = GenCfg::strict_full();
-        let case = build_case(rng, &gcfg, 25, 15, 12);
+    fn run_case(&self, cfg: &RunCfg, _idx: usize, rng: &mut Rng, out: &mut Out) {
+        let mut gcfg = GenCfg::strict_full();
+        let mut max_src = 12;
+        if cfg.tier == Tier::Thorough {
+            // deeper bounds: up to 8 stanzas, larger sources
+            gcfg.max_stanzas = 8;
+            max_src = 25;
+        }
+        let case = build_case(rng, &gcfg, 25, 15, max_src);
         let tree = parse_python(&case.source);
         let ti = TreeInfo::new(&tree);
         if let Some(a) = &ti.anomaly {
